@@ -52,7 +52,7 @@ Fixpoint extend (n : nat) (rev_w : list N) : list N :=
       extend n' (w :: rev_w)
   end.
 
-Definition round (st : list N) (kw : N * N) : list N :=
+Definition sha_round (st : list N) (kw : N * N) : list N :=
   match st with
   | [a;b;c;d;e;f;g;h] =>
       let t1 := add32 (add32 (add32 h (S1 e)) (add32 (Ch e f g) (fst kw))) (snd kw) in
@@ -63,7 +63,7 @@ Definition round (st : list N) (kw : N * N) : list N :=
 
 Definition compress (h : list N) (block : list N) : list N :=
   let w := rev (extend 48 (rev block)) in
-  let st := fold_left round (combine K256 w) h in
+  let st := fold_left sha_round (combine K256 w) h in
   map (fun p => add32 (fst p) (snd p)) (combine h st).
 
 Fixpoint chunks16 (fuel : nat) (l : list N) : list (list N) :=
